@@ -623,6 +623,26 @@ func (x *Exec) applyCallee(st *State, ins ssa.Instruction, c *ssa.CallCommon, ar
 		}
 	}
 	ctr := x.findContract(c)
+	if len(x.views) > 0 {
+		mayWrite := ctr == nil
+		if ctr != nil && !ctr.Pure && !ctr.ReadOnly {
+			for _, m := range ctr.Modifies {
+				if strings.Contains(m, "mem(") || strings.HasPrefix(strings.TrimSpace(m), "*") {
+					mayWrite = true
+				}
+			}
+			if !ctr.Neutral && !ctr.HasMod {
+				mayWrite = true
+			}
+		}
+		if mayWrite {
+			for _, a := range args {
+				if a.T != nil && isSlice(a.T) && len(a.L) >= 1 && x.views[a.sliceArr().S] {
+					panic(unsupported{"UNSUPPORTED a slice of an array embedded in another object is passed to a callee that may write to it (" + names[0] + ") in " + x.funcName()})
+				}
+			}
+		}
+	}
 	x.frameCall(st, ins, c, ctr, args, names[0])
 	if ctr == nil {
 		x.ck.noteHavocCall(x.funcName(), names[0])
@@ -1107,6 +1127,10 @@ func (x *Exec) defineArr(st *State, hint, sort string, body func(i Term) Term) T
 
 func (x *Exec) doAppend(st *State, ins ssa.Instruction, c *ssa.CallCommon, args []Value) Value {
 	s := args[0]
+	if x.views[s.sliceArr().S] && s.sliceLen().S != s.sliceCap().S {
+		// appending to a full view (cap == len) reallocates; anything else could write in place
+		panic(unsupported{"UNSUPPORTED append to a partial slice of an array embedded in another object in " + x.funcName()})
+	}
 	sl := s.T.Underlying().(*types.Slice)
 	var tail Value
 	if isString(args[1].T) {
@@ -1163,6 +1187,9 @@ func (x *Exec) doAppend(st *State, ins ssa.Instruction, c *ssa.CallCommon, args 
 
 func (x *Exec) doCopy(st *State, ins ssa.Instruction, c *ssa.CallCommon, args []Value) Value {
 	dst, src := args[0], args[1]
+	if isSlice(dst.T) && x.views[dst.sliceArr().S] {
+		panic(unsupported{"UNSUPPORTED copy into a slice of an array embedded in another object in " + x.funcName()})
+	}
 	sl := dst.T.Underlying().(*types.Slice)
 	rt := resultType(c)
 	var srcLen Term
